@@ -36,10 +36,11 @@ def main():
     ap.add_argument("--tests", action="store_true")
     ap.add_argument("--keep", action="store_true")
     ap.add_argument("--tier", default="quick")
+    ap.add_argument("--src", help="directory holding patch.diff / demo.py / notes.md for a seed not yet kept (default /tmp/seed_<ID>/<k>)")
     a = ap.parse_args()
     pid, k = a.pid.upper(), a.k
     kept = os.path.join(VERIF, "seeded", f"{pid}_{k}")
-    src = kept if os.path.isdir(kept) else f"/tmp/seed_{pid}/{k}"
+    src = kept if os.path.isdir(kept) else (a.src or f"/tmp/seed_{pid}/{k}")
     patch, demo = os.path.join(src, "patch.diff"), os.path.join(src, "demo.py")
     wt = f"/tmp/sv_{pid}_{k}"
     subprocess.run(["git", "-C", "/repo", "worktree", "remove", "--force", wt], capture_output=True)
